@@ -153,6 +153,13 @@ def check_guarded_write(ctx, rep, fld, f, x, u):
     """x: MemberExpr occurrence of the Circuit field; u: the Use (write)."""
     what = "write to %s" % fld
     target = write_target(x)
+    if target is None and isinstance(u.node, dict) and u.node.get("kind") in ("BinaryOperator", "CompoundAssignOperator") and children(u.node):
+        # the member was bound to a local reference (`std::vector<int> &cellX = circuit.cellX_;`) and an element is assigned through
+        # the alias: the canonical form of the left-hand side resolves the alias, so it is judged like a direct element write
+        lhs = children(u.node)[0]
+        lc = canon(lhs)
+        if lc[0] == "index" and lc[1][0] == "field" and lc[1][1].endswith("::" + fld.split("::")[-1]):
+            target = strip(lhs)
     if target is None:
         if u.kind == WRITE and "std mutator" in u.why or "operator=" == u.why or u.why == "assignment" and True:
             pass
